@@ -120,8 +120,8 @@ def Code.subst (r : Core) : Code → Code
   | .unitVariant sp v path push => .unitVariant sp (v.subst r) path (push.subst r)
   | .enumTuple sp v path binders body push =>
     .enumTuple sp (v.subst r) path binders (body.subst r) (push.subst r)
-  | .structNamed sp v path fields rest body push =>
-    .structNamed sp (v.subst r) path fields rest (body.subst r) (push.subst r)
+  | .structNamed sp v path fields fsps rest body push =>
+    .structNamed sp (v.subst r) path fields fsps rest (body.subst r) (push.subst r)
   | .tuple v binders body => .tuple (v.subst r) binders (body.subst r)
   | .range sp v e push => .range sp (v.subst r) e (push.subst r)
   | .slice v parts body push => .slice (v.subst r) parts (body.subst r) (push.subst r)
